@@ -23,6 +23,8 @@ const BASES: &[&str] = &[
     r#"<graphml xmlns="http://graphml.graphdrawing.org/xmlns"><key id="d0" for="edge" attr.name="weight" attr.type="double"/><graph edgedefault="undirected"><node id="x&amp;y"/><node id="z"></node><edge source="z" target="x&amp;y"><data key="d0">2</data></edge><edge source="z" target="z"/></graph></graphml>"#,
     r#"<?xml version="1.0" encoding="UTF-8"?><graphml><graph id="G" edgedefault="directed"><node id="n0"><data key="c">red</data></node><node id="n1"/><edge id="e0" source="n0" target="n1"></edge><edge source="n1" target="n0"><data key="weight">0.25</data></edge></graph></graphml>"#,
     r#"<graphml><key id='w' for='edge' attr.name='weight'/><graph edgedefault='undirected'><node id='é'/><node id=''/><edge source='é' target=''><data key='w'>-3e2</data></edge><!-- c --></graph></graphml>"#,
+    // dense in multi-byte characters (every offset arithmetic on the raw bytes meets a char boundary somewhere)
+    "<graphml><graph edgedefault=\"directed\"><node id=\"\u{e9}\u{e9}\u{65e5}\u{672c}\u{1F600}\u{e9}\u{e9}\u{e9}\u{e9}\u{e9}\u{e9}\"/><node id=\"\u{3b1}\u{3b2}\u{3b3}\"/><edge source=\"\u{3b1}\u{3b2}\u{3b3}\" target=\"\u{e9}\u{e9}\u{65e5}\u{672c}\u{1F600}\u{e9}\u{e9}\u{e9}\u{e9}\u{e9}\u{e9}\"><data key=\"weight\">\u{e9}1</data></edge></graph></graphml>",
 ];
 
 #[derive(Clone, Copy, Debug, PartialEq)]
@@ -102,6 +104,10 @@ fn grammar_doc(rng: &mut Rng) -> String {
     let prefix = if rng.chance(1, 12) { "g:" } else { "" };
     s.push_str(&format!("<{}graphml{}>", prefix, if rng.chance(1, 2) { " xmlns=\"http://graphml.graphdrawing.org/xmlns\"" } else { "" }));
     let wkey = rng.pick(&["weight", "d0", "w", "k1"]).to_string();
+    if rng.chance(1, 10) {
+        // the edge weight declared under two different ids
+        s.push_str(&format!("<{}key id={}{}{} for={}edge{} attr.name={}weight{}/>", prefix, q, "wA", q, q, q, q, q));
+    }
     for _ in 0..rng.range(0, 2) {
         let mut k = format!("<{}key", prefix);
         if rng.chance(9, 10) {
@@ -128,6 +134,14 @@ fn grammar_doc(rng: &mut Rng) -> String {
         let mut gtag = format!("<{}graph", prefix);
         if rng.chance(19, 20) {
             gtag.push_str(&at("edgedefault", *rng.pick(&["directed", "undirected", "directed", "undirected", "Directed", ""])));
+        }
+        if rng.chance(1, 8) {
+            // the optional GraphML parse hints, with honest, absurd and non-numeric values
+            for k in ["parse.nodes", "parse.edges", "parse.maxindegree", "parse.order"] {
+                if rng.chance(1, 2) {
+                    gtag.push_str(&at(k, *rng.pick(&["3", "0", "18446744073709551615", "1152921504606846976", "-1", "99999999999999999999999", "nodesfirst", "4294967296"])));
+                }
+            }
         }
         if rng.chance(1, 20) {
             s.push_str(&gtag);
